@@ -345,7 +345,7 @@ def rule(run, repo, tier, where):
                         bad.setdefault('bins == maximal runs of at least min_n_points points, in input order', {**cfg, 'bins': got_runs, 'maximal_runs': want, 'problem': why})
                     elif any(b[1] != b[0] for b in got):
                         bad.setdefault('each bin holds the coordinates of its own points', {**cfg, 'coordinate_points': [b[1] for b in got], 'bins': got_runs})
-    if n_ret < n_cases // 2:
+    if n_ret < n_cases // 2 and not bad:
         raise AnalysisError(f'C19.R6: only {n_ret} of {n_cases} series were answered (the rest refused): the domain does not exercise the rule')
     for inst in ('returns for sorted 1-d input', 'returns one bin per plateau', 'bins == maximal runs of at least min_n_points points, in input order',
                  'each bin holds the coordinates of its own points'):
